@@ -43,6 +43,30 @@ def from_tok(rng, nread_evs, napp):
         return "@a%d" % rng.randrange(napp)
     return rng.choice(GARBAGE)
 
+def gen_pub(rng, tier, n):
+    """C09 over the three REAL stores: publishes through a bus built on the store (and direct appends in between);
+    the handler of each publish reads the log. durable-streams only unchunked (the handler reads the log in one Read)."""
+    cases = []
+    for _ in range(n):
+        k = rng.choice(["mem", "sqlite", "sqlite", "ds", "ds"])
+        lines = ["kind sqlite batch=%d" % rng.choice([0, 2]) if k == "sqlite" else ("kind ds chunk=0" if k == "ds" else "kind mem")]
+        rec, prec = 1, 500000 + rng.randrange(1000)
+        for _ in range(rng.randint(3, 14)):
+            x = rng.random()
+            if x < 0.45:
+                lines.append("pub %d" % prec); prec += 1
+            elif x < 0.55:
+                lines.append("replaypub %d" % prec); prec += 1
+            elif x < 0.75:
+                lines.append("append %d" % rec); rec += 1
+            elif x < 0.9:
+                lines.append("read %s %d" % (rng.choice(["-", "@next"]), rng.choice([0, 2, 100])))
+            else:
+                lines.append("use %d" % rng.randrange(2))
+        lines.append("read - 0")
+        cases.append(lines)
+    return cases
+
 def gen_c10(rng, tier, n):
     cases = []
     for _ in range(n):
